@@ -88,6 +88,10 @@ def run_history(case, stats=None):
                     continue
                 # ---- plot
                 _, k, upto, show_ceilos, ref_metar, origin, show, stem, fmts = op
+                abs_stem = stem
+                if stem and stem.startswith('{ROOT}/'):    # absolute path inside the sandbox
+                    abs_stem = os.path.join(root, stem[len('{ROOT}/'):])
+                    stem = stem[len('{ROOT}/'):]
                 chunk = chunks[k % len(chunks)]
                 if chunk is None:
                     continue
@@ -102,7 +106,7 @@ def run_history(case, stats=None):
                           'ref_metar': REF_METARS[ref_metar],
                           'ref_metar_origin': ORIGINS[origin], 'show': bool(show)}
                 if stem:
-                    kwargs['save_stem'] = stem
+                    kwargs['save_stem'] = abs_stem
                 if fmts != 'default':
                     kwargs['save_fmts'] = fmts
                 bump('probe.plot_upto_' + UPTO[upto])
@@ -249,7 +253,9 @@ def gen_ops(rng, n_chunks):
             fmts = 'default'
             if save:
                 stem = rng.choice([f'plot{n_stems}', f'out/dir{n_stems % 2}/diag{n_stems}',
-                                   'same_stem'])
+                                   'same_stem', f'Geneva_2019.01.10-04.{45 + n_stems}.34',
+                                   f'run_v1.{n_stems}', f'out/v2.{n_stems % 2}/diag {n_stems}',
+                                   f'{{ROOT}}/abs_{n_stems}'])
                 n_stems += 1
                 fmts = rng.choice([['png'], ['png'], 'png', ['png', 'svg'], ['svg'], 'default',
                                    ['pdf'], ['png', 'pdf', 'svg'], None])
